@@ -429,6 +429,7 @@ def pbatch(exe, lines, timeout=1800):
 
 def run(chk):
     chk.trusted_base = common.BASE_TRUST + [
+        "translate/units/_cmp.py + translate/c2gallina.py (clang JSON AST): the comparison part of the C comparators (player.c stream_cmp, trace.c cmp_streams) is translated to Gallina on every run, the statements that fetch the compared integers are pinned as normalised source text, not translated",
         "hand model of heap.h as an array heap (Emu/HeapDefs.v): compared with the real heap.h after every operation (positions through heap_get + pointer audit)",
         "hand model of player.c/stream.c clock handling and trace.c ordering (Emu/PlayerDefs.v): compared with the real ovnidump/ovniemu on generated traces",
         "extraction (ExtrOcamlBasic only) + OCaml 4.13 + oracle/merge_drv.ml; harness/heap_h.c; trace writer and PRV/ovnidump parsers in lib/",
@@ -440,7 +441,7 @@ def run(chk):
     chk.assumptions = ["relative paths of the streams are pairwise distinct (they are distinct directories)",
                        "|clock + offset| < 2^63 (no signed overflow in stream_evclock)",
                        "PRV thread-state records (type 4) are written in the order the events are processed; the e2e traces make every event change the thread state"]
-    proved = chk.prove()
+    proved = chk.translate_and_prove(["cmp_player"])
 
     build = common.repo_build("hook")
     hdir = os.path.join(common.BUILD, "harness")
